@@ -275,6 +275,11 @@ def gen_document(ints, key_pool=None, string_keys=None, value_extra=None, max_it
         if kind == "entry":
             if key_pool is None:
                 key = "".join(src.pick(KEYCH) for _ in range(1 + src.below(6)))
+                if used_keys and src.below(6) == 5:
+                    # a key that differs from an earlier one only in letter case is a different key
+                    prev = sorted(used_keys)[src.below(len(used_keys))]
+                    if prev.swapcase() != prev:
+                        key = prev.swapcase()
                 while key in used_keys:
                     key += str(counter)
                 used_keys.add(key)
